@@ -149,6 +149,35 @@ def _worker_inner(modname, obname, tier, outpath):
                     c["replays"].append({"reproduced": bool(ok), "info": info})
                     if ok:
                         break
+            need_search = (c["violated"] and not any(x["reproduced"] for x in c["replays"])) or (c["unknown"] and not c["violated"])
+            if need_search and c.get("domains"):
+                # The solver's model may rely on its own interpretation of an uninterpreted function or sit on a degenerate point, or the
+                # solver may have answered 'unknown'.  Look for a confirming concrete input: a violation is only ever reported with an input
+                # that fails on the real code; 'held' verdicts never come from this search.
+                import random
+                rng = random.Random(int(os.environ.get("VERIF_SEED", "0") or 0) + 17)
+                base = c["models"][0] if c["models"] else {"values": {}, "prefix": [], "tags": []}
+                for _try in range(24):
+                    vals = dict(base["values"])
+                    for n, (lo, hi, pos, neg) in c["domains"].items():
+                        if isinstance(vals.get(n), (bool, int, str)) and not isinstance(vals.get(n), float):
+                            continue
+                        if lo is not None and hi is not None:
+                            vals[n] = rng.uniform(lo + 0.05 * (hi - lo), hi - 0.05 * (hi - lo))
+                        elif pos or (lo is not None and lo >= 0):
+                            vals[n] = (lo or 0.0) + rng.uniform(0.2, 3.0)
+                        elif neg or (hi is not None and hi <= 0):
+                            vals[n] = (hi or 0.0) - rng.uniform(0.2, 3.0)
+                        else:
+                            vals[n] = rng.uniform(-3.0, 3.0)
+                    ok, info = replay_conc(ob, cname, vals, tier)
+                    if ok:
+                        c["models"].append({"values": vals, "prefix": base["prefix"], "tags": base["tags"], "found_by": "concrete search after an undecided/unreplayable solver answer"})
+                        while len(c["replays"]) < len(c["models"]) - 1:
+                            c["replays"].append({"reproduced": False, "info": "not tried"})
+                        c["replays"].append({"reproduced": True, "info": info})
+                        c["violated"] = max(c["violated"], 1)
+                        break
         res["status"] = "done"
     except core.HarnessError as e:
         res = {"obligation": obname, "status": "harness_error", "error": repr(e), "trace": traceback.format_exc()[-2000:]}
@@ -156,6 +185,35 @@ def _worker_inner(modname, obname, tier, outpath):
         res = {"obligation": obname, "status": "harness_error", "error": repr(e), "trace": traceback.format_exc()[-2000:]}
     with open(outpath, "w") as f:
         json.dump(res, f, default=lambda o: repr(o)[:200])
+
+
+def _worker_conc_search(modname, obname, tier, outpath, seed):
+    """fallback after a timed-out symbolic exploration: run the obligation body concretely on random admissible inputs; only a
+    concretely failing claim is ever reported (as a violation with its input); nothing is ever reported as held from here"""
+    import contextlib
+    import io
+    found = {}
+    tried = 0
+    try:
+        with contextlib.redirect_stdout(io.StringIO()):
+            mod = importlib.import_module(modname)
+            ob = [o for o in mod.OBLIGATIONS if o.name == obname][0]
+            t0 = time.time()
+            k = 0
+            while time.time() - t0 < 90 and k < 200 and len(found) < 3:
+                k += 1
+                vals = {"__random__": seed * 1000 + k}
+                env = core.new_env(mode="conc", values=vals)
+                env.tier = tier
+                env.explore(ob.fn)
+                tried += 1
+                for cname, c in env.claims.items():
+                    if c.conc is False and not cname.startswith("witness:") and cname not in found:
+                        found[cname] = {k2: v for k2, v in vals.items() if not k2.startswith("__")}
+    except BaseException as e:  # noqa
+        pass
+    with open(outpath, "w") as f:
+        json.dump({"found": found, "tried": tried}, f, default=lambda o: repr(o)[:100])
 
 
 def load_known():
@@ -213,6 +271,29 @@ def run_property(pid, tier, seed, only=None, jobs=None, verbose=False):
                 else:
                     still.append((ob, p, out, ts))
             running = still
+        # fallback for obligations whose symbolic exploration hit the wall limit: concrete search for a failing input
+        for ob in obs:
+            r = results.get(ob.name, {})
+            if r.get("status") == "timeout":
+                out = os.path.join(tmp, ob.name + ".conc.json")
+                p = multiprocessing.Process(target=_worker_conc_search, args=(modname, ob.name, tier, out, int(seed)))
+                p.start()
+                p.join(150)
+                if p.is_alive():
+                    p.terminate()
+                    p.join(5)
+                if os.path.exists(out):
+                    cs = json.load(open(out))
+                    r["concrete_search"] = {"inputs_tried": cs.get("tried"), "failing_claims": list(cs.get("found", {}))}
+                    if cs.get("found"):
+                        r["status"] = "done"
+                        r["stats"] = dict(paths=0, aborted=0, queries=0, sat=0, unsat=0, unknown=0, solver_s=0.0, exceptions=0, budget_exhausted=True)
+                        r["wall_s"] = ob.wall_s or 0
+                        r["claims"] = {cn: {"name": cn, "paths": 0, "held": 0, "violated": 1, "unknown": 0, "trivial": 0, "solver_s": 0.0,
+                                            "models": [{"values": v, "prefix": [], "tags": ["found by concrete search after the symbolic exploration timed out"]}],
+                                            "replays": [{"reproduced": True, "info": "claim failed on this concrete input (real code, plain floats)"}]}
+                                       for cn, v in cs["found"].items()}
+                        r["notes"] = ["symbolic exploration hit the wall limit; violation established by concrete execution of the real code"]
     finally:
         shutil.rmtree(tmp, ignore_errors=True)
 
